@@ -12,6 +12,8 @@ def run():
                   vlib.model_check("MutexImpl", "MutexImpl.cfg", timeout=600))
     r = vlib.model_check("MutexImpl", "MutexImpl_dev.cfg", expect_ok=False, timeout=600)
     chk.add_model("MutexImpl/variant timeout_swallows_wake (must violate)", r, note="violated: %s" % r["violated"])
+    chk.add_model("MutexRefine: MutexImpl refines the abstract mutex MutexTiny (holder <- owner)",
+                  vlib.model_check("MutexRefine", "MutexRefine.cfg", timeout=600))
     (binary,) = vlib.build_harness(["sync_harness"])
     nruns = 64 if chk.thorough() else 16
     nhist = 150 if chk.thorough() else 60
